@@ -25,6 +25,10 @@ from pygradflow.solver import Solver
 from pygradflow.step.step_solver_error import StepSolverError
 
 
+class RunawayLoop(Exception):
+    """Raised by the recorder (not by pygradflow) to end a solve whose loop ignores the iteration limit."""
+
+
 class MachineryError(Exception):
     """Raised for failures of the harness itself (exit 2, never a violation)."""
 
@@ -155,7 +159,7 @@ def clock_site():
     if has("reached_time_limit", "timer.py"):
         if has("_check_terminate", "solver.py"):
             return "terminate"
-        if has("step", "exact_control.py"):
+        if has("step", "exact_control.py") or has("_verif_inner_read", "loopdriver.py"):
             return "inner"
         return "limit.other"
     if has("should_display", "display.py"):
@@ -468,6 +472,11 @@ class TracedSolver(Solver):
 
     # -- overridden hooks of Solver
     def _check_terminate(self, iterate, iteration, timer):
+        # runaway guard: the loop top was passed far more often than the iteration limit allows
+        self._ntops = getattr(self, "_ntops", 0) + 1
+        lim = self.params.iteration_limit
+        if lim is not None and self._ntops > lim + 40:
+            raise RunawayLoop("loop top reached %d times with iteration_limit=%d" % (self._ntops, lim))
         status = super()._check_terminate(iterate, iteration, timer)
         name = "none" if status is None else status.name
         obs = {"opt": False, "infeas": False, "unb": False}
@@ -760,6 +769,7 @@ class TracedSolver(Solver):
         rec.emit("NewSolve", **cfg)
         rec.meta[self._run] = dict(problem=_unwrap(up), scaling=self.transform.scaling, params=self.params)
         self._pending_trial = False
+        self._ntops = 0
         with self._patched():
             try:
                 result = super().solve(x0, y0)
